@@ -504,13 +504,14 @@ def degree_vectors(ctx):
                         och = iterator_chain(ctx, cb, lro["iter_expr"]) if lro.get("iter_expr") is not None else []
                         on = [c[0] for c in och]
                         outer_ok = not lro["early_exits"] and not [x for x in on if x in SELECTIVE_ITER] and \
-                            any(x in ALL_NODE_SOURCES or x.endswith("::node_indices") for x in on) and \
+                            ranges_all_nodes(och) and \
                             not [g for g in cond_guards(cb, cbb) if g[0] in lro["blocks"] and g[0] != lro.get("switch_bb")]
                     elif cb.kind == "closure":
                         ou = fl.closure_uses(cb)
                         if len(ou) == 1 and callee_path(ou[0][2]) in ("std::iter::Iterator::fold", "std::iter::Iterator::for_each"):
-                            on = [c[0] for c in iterator_chain(ctx, ou[0][0], expr_operand(ou[0][0], ou[0][2]["args"][0]))]
-                            outer_ok = not [x for x in on if x in SELECTIVE_ITER] and any(x in ALL_NODE_SOURCES or x.endswith("::node_indices") for x in on) and \
+                            och_ = iterator_chain(ctx, ou[0][0], expr_operand(ou[0][0], ou[0][2]["args"][0]))
+                            on = [c[0] for c in och_]
+                            outer_ok = not [x for x in on if x in SELECTIVE_ITER] and ranges_all_nodes(och_) and \
                                 not cond_guards(cb, cbb)
                     if not outer_ok:
                         kind = "?"
@@ -718,7 +719,7 @@ def full_edge_walk(ctx, body, bb=None):
         qb, qbb, qt, qai = ou[0]
         ochain = iterator_chain(ctx, qb, expr_operand(qb, qt["args"][0]))
         onames = [c[0] for c in ochain]
-        if [x for x in onames if x in SELECTIVE_ITER] or not any(x in ALL_NODE_SOURCES or x.endswith("::node_indices") for x in onames):
+        if [x for x in onames if x in SELECTIVE_ITER] or not ranges_all_nodes(ochain):
             return False, "node walk does not range over all nodes: %s" % onames
         return True, ""
     if body.kind != "closure":
@@ -744,7 +745,7 @@ def full_edge_walk(ctx, body, bb=None):
         qb, qbb, qt, qai = ou[0]
         ochain = iterator_chain(ctx, qb, expr_operand(qb, qt["args"][0]))
         onames = [c[0] for c in ochain]
-        if [x for x in onames if x in SELECTIVE_ITER] or not any(x in ALL_NODE_SOURCES for x in onames):
+        if [x for x in onames if x in SELECTIVE_ITER] or not ranges_all_nodes(ochain):
             return False, "node walk does not range over all nodes: %s" % onames
     return True, ""
 
